@@ -167,6 +167,11 @@ func (tt *Terms) Bool(b bool) *Term {
 }
 
 func (tt *Terms) BVConst(w int, v uint64) *Term {
+	if w > 64 {
+		// wide constants are concatenations of 64-bit pieces (never OConst), so constant folding
+		// code only ever sees constants that fit a uint64
+		return tt.wideConst(w, new(big.Int).SetUint64(v))
+	}
 	v &= mask(w)
 	return tt.intern(termKey{op: OConst, k: SBV, w: w, u: v}, func() *Term { return &Term{Op: OConst, S: BV(w), U: v} })
 }
@@ -353,6 +358,11 @@ func (tt *Terms) Eq(a, b *Term) *Term {
 		}
 		if b.IsFalse() {
 			return tt.Not(a)
+		}
+	}
+	if a.S.K == SInt {
+		if r := tt.intCmpToBV(OEq, a, b); r != nil {
+			return r
 		}
 	}
 	if a.ID > b.ID {
@@ -662,6 +672,11 @@ func (tt *Terms) Sext(w int, a *Term) *Term {
 		return tt.Extract(w-1, 0, a)
 	}
 	if a.IsConst() {
+		if w > 64 {
+			v := big.NewInt(sx(a.U, a.S.W))
+			v.Mod(v, new(big.Int).Lsh(big.NewInt(1), uint(w)))
+			return tt.wideConst(w, v)
+		}
 		return tt.BVConst(w, uint64(sx(a.U, a.S.W)))
 	}
 	return tt.mk(OSext, BV(w), w, 0, "", a)
@@ -744,6 +759,9 @@ func (tt *Terms) IAbs(a *Term) *Term {
 	if a.IsConst() {
 		return tt.IntConst(new(big.Int).Abs(a.Big))
 	}
+	if a.Op == OBV2Nat || a.Op == OIAbs {
+		return a
+	}
 	return tt.mk(OIAbs, IntSort, 0, 0, "", a)
 }
 
@@ -757,6 +775,9 @@ func (tt *Terms) ICmp(op Op, a, b *Term) *Term {
 	}
 	if a == b {
 		return tt.Bool(op == OILe)
+	}
+	if r := tt.intCmpToBV(op, a, b); r != nil {
+		return r
 	}
 	return tt.mk(op, BoolSort, 0, 0, "", a, b)
 }
@@ -790,12 +811,223 @@ func (tt *Terms) Int2BV(w int, a *Term) *Term {
 	if a.IsConst() {
 		m := new(big.Int).Lsh(big.NewInt(1), uint(w))
 		r := new(big.Int).Mod(a.Big, m)
-		return tt.BVConst(w, r.Uint64())
+		if w <= 64 {
+			return tt.BVConst(w, r.Uint64())
+		}
+		return tt.wideConst(w, r)
 	}
-	if a.Op == OBV2Nat && a.Args[0].S.W == w {
-		return a.Args[0]
+	// int2bv is a ring homomorphism Z -> Z/2^w: push it through the integer operators so that
+	// machine-integer round trips stay inside the bit-vector theory.
+	switch a.Op {
+	case OBV2Nat:
+		x := a.Args[0]
+		if x.S.W == w {
+			return x
+		}
+		if x.S.W < w {
+			return tt.Zext(w, x)
+		}
+		return tt.Extract(w-1, 0, x)
+	case OIAdd:
+		return tt.BvBin(OBvAdd, tt.Int2BV(w, a.Args[0]), tt.Int2BV(w, a.Args[1]))
+	case OISub:
+		return tt.BvBin(OBvSub, tt.Int2BV(w, a.Args[0]), tt.Int2BV(w, a.Args[1]))
+	case OIMul:
+		if w <= 64 && (a.Args[0].IsConst() || a.Args[1].IsConst()) {
+			return tt.BvBin(OBvMul, tt.Int2BV(w, a.Args[0]), tt.Int2BV(w, a.Args[1]))
+		}
+	case OINeg:
+		return tt.BvNeg(tt.Int2BV(w, a.Args[0]))
+	case OIte:
+		return tt.Ite(a.Args[0], tt.Int2BV(w, a.Args[1]), tt.Int2BV(w, a.Args[2]))
+	case OIAbs:
+		x := a.Args[0]
+		bx := tt.Int2BV(w, x)
+		return tt.Ite(tt.ILt(x, tt.IntConst64(0)), tt.BvNeg(bx), bx)
 	}
 	return tt.mk(OInt2BV, BV(w), w, 0, "", a)
+}
+
+// wideConst builds a constant wider than 64 bits as a concatenation of 64-bit pieces.
+func (tt *Terms) wideConst(w int, v *big.Int) *Term {
+	var res *Term
+	rem := w
+	m64 := new(big.Int).SetUint64(^uint64(0))
+	// least significant piece first
+	var pieces []*Term
+	x := new(big.Int).Set(v)
+	for rem > 0 {
+		pw := 64
+		if rem < 64 {
+			pw = rem
+		}
+		lo := new(big.Int).And(x, m64).Uint64()
+		pieces = append(pieces, tt.BVConst(pw, lo))
+		x.Rsh(x, 64)
+		rem -= pw
+	}
+	for i := len(pieces) - 1; i >= 0; i-- {
+		if res == nil {
+			res = pieces[i]
+		} else {
+			res = tt.mk(OConcat, BV(res.S.W+pieces[i].S.W), 0, 0, "", res, pieces[i])
+		}
+	}
+	return res
+}
+
+// AbsBV is the magnitude of a signed bit-vector as an unsigned bit-vector of the same width
+// (correct for the minimum value too: |-2^(w-1)| = 2^(w-1) fits unsigned).
+func (tt *Terms) AbsBV(x *Term) *Term {
+	return tt.Ite(tt.BvCmp(OBvSlt, x, tt.BVConst(x.S.W, 0)), tt.BvNeg(x), x)
+}
+
+// AsSigned exposes asSigned.
+func (tt *Terms) AsSigned(t *Term) (*Term, bool) { return tt.asSigned(t) }
+
+// asSigned recognises the term BV2Int(x) = ite(x <s 0, bv2nat(x) - 2^w, bv2nat(x)).
+func (tt *Terms) asSigned(t *Term) (*Term, bool) {
+	if t.Op != OIte || t.Args[2].Op != OBV2Nat {
+		return nil, false
+	}
+	x := t.Args[2].Args[0]
+	c := t.Args[0]
+	if c.Op != OBvSlt || c.Args[0] != x || !c.Args[1].IsConst() || c.Args[1].U != 0 {
+		return nil, false
+	}
+	s := t.Args[1]
+	if s.Op != OISub || s.Args[0] != t.Args[2] || !s.Args[1].IsConst() {
+		return nil, false
+	}
+	if s.Args[1].Big.Cmp(new(big.Int).Lsh(big.NewInt(1), uint(x.S.W))) != 0 {
+		return nil, false
+	}
+	return x, true
+}
+
+// intCmpToBV rewrites comparisons between machine-integer images into bit-vector comparisons.
+func (tt *Terms) intCmpToBV(op Op, a, b *Term) *Term {
+	// returns nil when no rewrite applies. op is OILt, OILe or OEq.
+	type view struct {
+		x      *Term
+		signed bool
+	}
+	get := func(t *Term) (view, bool) {
+		if x, ok := tt.asSigned(t); ok && x.S.W <= 64 {
+			return view{x, true}, true
+		}
+		if t.Op == OBV2Nat && t.Args[0].S.W <= 64 {
+			return view{t.Args[0], false}, true
+		}
+		if t.Op == OIAbs {
+			if x, ok := tt.asSigned(t.Args[0]); ok && x.S.W <= 64 {
+				return view{tt.AbsBV(x), false}, true
+			}
+		}
+		return view{}, false
+	}
+	rng := func(v view) (*big.Int, *big.Int) { // inclusive range
+		w := uint(v.x.S.W)
+		if v.signed {
+			lo := new(big.Int).Neg(new(big.Int).Lsh(big.NewInt(1), w-1))
+			hi := new(big.Int).Sub(new(big.Int).Lsh(big.NewInt(1), w-1), big.NewInt(1))
+			return lo, hi
+		}
+		return big.NewInt(0), new(big.Int).Sub(new(big.Int).Lsh(big.NewInt(1), w), big.NewInt(1))
+	}
+	konst := func(v view, c *big.Int) *Term {
+		w := v.x.S.W
+		m := new(big.Int).Lsh(big.NewInt(1), uint(w))
+		return tt.BVConst(w, new(big.Int).Mod(c, m).Uint64())
+	}
+	lt := func(v view, p, q *Term) *Term {
+		if v.signed {
+			return tt.BvCmp(OBvSlt, p, q)
+		}
+		return tt.BvCmp(OBvUlt, p, q)
+	}
+	le := func(v view, p, q *Term) *Term {
+		if v.signed {
+			return tt.BvCmp(OBvSle, p, q)
+		}
+		return tt.BvCmp(OBvUle, p, q)
+	}
+	va, oka := get(a)
+	vb, okb := get(b)
+	switch {
+	case oka && b.IsConst():
+		lo, hi := rng(va)
+		c := b.Big
+		switch op {
+		case OILt: // a < c
+			if c.Cmp(lo) <= 0 {
+				return tt.False
+			}
+			if c.Cmp(hi) > 0 {
+				return tt.True
+			}
+			return lt(va, va.x, konst(va, c))
+		case OILe:
+			if c.Cmp(lo) < 0 {
+				return tt.False
+			}
+			if c.Cmp(hi) >= 0 {
+				return tt.True
+			}
+			return le(va, va.x, konst(va, c))
+		case OEq:
+			if c.Cmp(lo) < 0 || c.Cmp(hi) > 0 {
+				return tt.False
+			}
+			return tt.Eq(va.x, konst(va, c))
+		}
+	case a.IsConst() && okb:
+		lo, hi := rng(vb)
+		c := a.Big
+		switch op {
+		case OILt: // c < b
+			if c.Cmp(hi) >= 0 {
+				return tt.False
+			}
+			if c.Cmp(lo) < 0 {
+				return tt.True
+			}
+			return lt(vb, konst(vb, c), vb.x)
+		case OILe:
+			if c.Cmp(hi) > 0 {
+				return tt.False
+			}
+			if c.Cmp(lo) <= 0 {
+				return tt.True
+			}
+			return le(vb, konst(vb, c), vb.x)
+		case OEq:
+			if c.Cmp(lo) < 0 || c.Cmp(hi) > 0 {
+				return tt.False
+			}
+			return tt.Eq(vb.x, konst(vb, c))
+		}
+	case oka && okb && va.signed == vb.signed:
+		x, y := va.x, vb.x
+		w := x.S.W
+		if y.S.W > w {
+			w = y.S.W
+		}
+		if va.signed {
+			x, y = tt.Sext(w, x), tt.Sext(w, y)
+		} else {
+			x, y = tt.Zext(w, x), tt.Zext(w, y)
+		}
+		switch op {
+		case OILt:
+			return lt(va, x, y)
+		case OILe:
+			return le(va, x, y)
+		case OEq:
+			return tt.Eq(x, y)
+		}
+	}
+	return nil
 }
 
 // UF application; declares the function on first use.
